@@ -161,6 +161,19 @@ CHECKS["C13"] = {
     "technique": "bounded symbolic execution (CrossHair + z3) over a receiver population with symbolic probed object and call sequence",
 }
 
+CHECKS["C11"] = {
+    "category": "model_checking",
+    "text": "(1) Tag algebra: two symbolic lists of tag indices go through the real get_tags/&/TagSet.__eq__/match_tag: equality as "
+            "sets, membership, string form == object form, for every list within the bound. (2) Placement: the annotations of two "
+            "parameters, three annotated assignments, one annotated re-binding of a parameter and the return annotation are chosen "
+            "by a symbolic vector; the source is generated from it and probed with $x:@T, *:@T, v:@T, $x and f:@T for each tag; "
+            "the raw stream (real name, value) must be exactly the bindings annotated with T and only those may be instrumented "
+            "(spy on Interactor.interact). Path trees exhausted.",
+    "design_ref": "DESIGN.md section 4, C11",
+    "note": "Part (2) is bounded choice exploration (the solver enumerates the finite vector); values are symbolic ints.",
+    "technique": "bounded symbolic execution (CrossHair + z3): tag algebra on symbolic lists, annotation placement as a solver-enumerated choice vector",
+}
+
 NOT_YET = {}
 
 
